@@ -15,6 +15,13 @@
      E'  a copy of the revealed output (p is an output party),
      E   the one missing summand of the revealed output, all other summands being in p's view,
      M   masked by a fresh tape cell under a key p does not hold (one-time pad, triangular).
+   Tuples (programs create_tuple(e1, .., ek) with elementwise e_i): a node that is statically a
+   tuple (CreateTuple, or a NOP copy of one: kind KdTup) carries one such info per component; a
+   delivery of a tuple is the delivery of each of its components (every component must be of one
+   of the forms above, masks are recorded per (node, component)), TupleGet j of a tuple-valued
+   node reads the info of component j, and a tuple-valued revealed output is a CreateTuple of
+   Add-trees, one per component (pattern E is looked for in the component's own tree).  Component
+   infos are one level deep: a component that is itself a tuple is opaque (kind KdUnk).
    Soundness (Proofs/MaskCheckProofs.v): acceptance implies a bijection of the tape space under
    which p's whole view coincides for any two admissible input vectors. *)
 From CC Require Import Base.Prelude Base.Scalar Base.Ty Base.Shape Graph.Value Graph.IR
@@ -50,6 +57,8 @@ Section MVal.
   Notation rval := (rval R).
 
   Definition leaf (v : rval) : R := match v with RLeaf _ x => x | _ => r0 end.
+  (* component j of a tuple value (what TupleGet j computes) *)
+  Definition cval (j : Z) (v : rval) : rval := match v with RTup _ l => zget l j (RKey R) | _ => RKey R end.
 
   (* RingEval.reval_node made total: an ill-shaped application yields the default RKey, and the
      arithmetic operations read a non-leaf operand as r0 *)
@@ -80,21 +89,28 @@ Section MVal.
     build (RKey R) (msem t) nodes [] ins.
   Definition nval (t : Z -> R) (ins : list rval) (nodes : list node) (i : Z) : rval :=
     zget (mval t ins nodes) i (RKey R).
+  (* value at a location (node, component): the node's whole value if j < 0 *)
+  Definition lval (t : Z -> R) (ins : list rval) (nodes : list node) (i j : Z) : rval :=
+    if j <? 0 then nval t ins nodes i else cval j (nval t ins nodes i).
 End MVal.
 
 (* ------------------------------------------------------------------ static information *)
-Inductive kind := KdLeaf | KdKey | KdUnk.
+Inductive kind := KdLeaf | KdKey | KdUnk | KdTup.
 Definition kind_eqb (a b : kind) : bool :=
-  match a, b with KdLeaf, KdLeaf | KdKey, KdKey | KdUnk, KdUnk => true | _, _ => false end.
+  match a, b with KdLeaf, KdLeaf | KdKey, KdKey | KdUnk, KdUnk | KdTup, KdTup => true | _, _ => false end.
 
 Record ninfo := mkNI {
   ni_supp : list Z;              (* tape cells the value may depend on *)
   ni_lin : list (Z * bool);      (* cells with slope +1 (false) / -1 (true) *)
   ni_vd : bool;                  (* determined by the observer's view *)
   ni_pre : bool;                 (* determined by the view even without being delivered *)
-  ni_kind : kind                 (* always a leaf / always a key / unknown *)
+  ni_kind : kind                 (* always a leaf / always a key / unknown / a tuple with the
+                                    recorded components *)
 }.
 Definition ni_default : ninfo := mkNI [] [] false false KdUnk.
+(* per node: the info of the whole value and, for a static tuple, of each component *)
+Definition xinfo := (ninfo * list ninfo)%type.
+Definition xi_default : xinfo := (ni_default, []).
 
 Definition is_deliv (p : party) (nd : node) : bool :=
   existsb (fun a => match a with ASend s r => (r =? p) && negb (s =? p) | _ => false end) (n_annots nd).
@@ -104,48 +120,97 @@ Definition lin_keep (excl : list Z) (l : list (Z * bool)) : list (Z * bool) :=
   filter (fun e => negb (zmem (fst e) excl)) l.
 Definition lin_flip (l : list (Z * bool)) : list (Z * bool) := map (fun e => (fst e, negb (snd e))) l.
 
-Definition isem (c : config) (p : party) (i : Z) (nd : node) (look : Z -> ninfo) (sts : list status) : ninfo :=
-  let ds := map look (n_deps nd) in
-  let o := n_op nd in
-  let supp := match o with OPRF _ _ => [i] | _ => dsupp ds end in
-  let lin := match o with
-             | OPRF _ _ => [(i, false)]
-             | OAdd => match ds with
-                       | [a; b] => lin_keep (ni_supp b) (ni_lin a) ++ lin_keep (ni_supp a) (ni_lin b)
-                       | _ => [] end
-             | OSubtract => match ds with
-                            | [a; b] => lin_keep (ni_supp b) (ni_lin a) ++ lin_flip (lin_keep (ni_supp a) (ni_lin b))
-                            | _ => [] end
-             | ONOP => match ds with [a] => ni_lin a | _ => [] end
-             | _ => []
-             end in
-  let kd := match o with
-            | ORandom _ => KdKey
-            | OPRF _ _ => KdLeaf
-            | OZeros (TScalar _) | OZeros (TArray _ _) | OOnes (TScalar _) | OOnes (TArray _ _)
-            | OConstant (TScalar _) _ | OConstant (TArray _ _) _ => KdLeaf
-            | OAdd | OSubtract | OMultiply => match ds with [_; _] => KdLeaf | _ => KdKey end
-            | ONOP => match ds with [a] => ni_kind a | _ => KdKey end
-            | _ => KdUnk
-            end in
-  let pre := match o with
-             | OInput _ => match sts with
-                           | StParty q :: _ => q =? p
-                           | StPublic :: _ => true
-                           | _ => false end
-             | OZeros _ | OOnes _ | OConstant _ _ => true
-             | ORandom _ => cert_of c i =? p
-             | _ => forallb ni_vd ds
-             end in
-  mkNI supp lin (is_deliv p nd || pre) pre kd.
+(* components are one level deep: a component that is itself a tuple is opaque *)
+Definition unk_kind (k : kind) : kind := match k with KdTup => KdUnk | _ => k end.
+(* a value seen as a component of a new node: determined without that node's delivery iff it is
+   in the view already *)
+Definition as_comp (a : ninfo) : ninfo :=
+  mkNI (ni_supp a) (ni_lin a) (ni_vd a) (ni_vd a) (unk_kind (ni_kind a)).
+Definition set_deliv (dv : bool) (a : ninfo) : ninfo :=
+  mkNI (ni_supp a) (ni_lin a) (dv || ni_pre a) (ni_pre a) (ni_kind a).
+(* the component a TupleGet j reads, if its argument has recorded components *)
+Definition tget_comp (xs : list xinfo) (j : Z) : option ninfo :=
+  match xs with
+  | [(_, cs)] => match znth cs j with Ok cj => Some cj | _ => None end
+  | _ => None
+  end.
 
-Definition infos (c : config) (p : party) (nodes : list node) : list ninfo :=
-  build ni_default (isem c p) nodes [] (cfg_inputs c).
+Definition tget_of (o : op) (xs : list xinfo) : option ninfo :=
+  match o with OTupleGet j => tget_comp xs j | _ => None end.
+Definition supp_of (i : Z) (o : op) (ds : list ninfo) : list Z :=
+  match o with OPRF _ _ => [i] | _ => dsupp ds end.
+Definition lin_of (i : Z) (o : op) (ds : list ninfo) : list (Z * bool) :=
+  match o with
+  | OPRF _ _ => [(i, false)]
+  | OAdd => match ds with
+            | [a; b] => lin_keep (ni_supp b) (ni_lin a) ++ lin_keep (ni_supp a) (ni_lin b)
+            | _ => [] end
+  | OSubtract => match ds with
+                 | [a; b] => lin_keep (ni_supp b) (ni_lin a) ++ lin_flip (lin_keep (ni_supp a) (ni_lin b))
+                 | _ => [] end
+  | ONOP => match ds with [a] => ni_lin a | _ => [] end
+  | _ => []
+  end.
+Definition kind_of (o : op) (ds : list ninfo) : kind :=
+  match o with
+  | ORandom _ => KdKey
+  | OPRF _ _ => KdLeaf
+  | OZeros (TScalar _) | OZeros (TArray _ _) | OOnes (TScalar _) | OOnes (TArray _ _)
+  | OConstant (TScalar _) _ | OConstant (TArray _ _) _ => KdLeaf
+  | OAdd | OSubtract | OMultiply => match ds with [_; _] => KdLeaf | _ => KdKey end
+  | ONOP => match ds with [a] => ni_kind a | _ => KdKey end
+  | OCreateTuple => KdTup
+  | _ => KdUnk
+  end.
+Definition pre_of (c : config) (p : party) (i : Z) (o : op) (ds : list ninfo) (sts : list status) : bool :=
+  match o with
+  | OInput _ => match sts with
+                | StParty q :: _ => q =? p
+                | StPublic :: _ => true
+                | _ => false end
+  | OZeros _ | OOnes _ | OConstant _ _ => true
+  | ORandom _ => cert_of c i =? p
+  | _ => forallb ni_vd ds
+  end.
+(* recorded components: of a CreateTuple its arguments, of a NOP those of its argument *)
+Definition comps_of (o : op) (xs : list xinfo) : list ninfo :=
+  match o with
+  | OCreateTuple => map as_comp (map fst xs)
+  | ONOP => match xs with [(_, cs)] => map as_comp cs | _ => [] end
+  | _ => []
+  end.
+
+Definition isem (c : config) (p : party) (i : Z) (nd : node) (look : Z -> xinfo) (sts : list status) : xinfo :=
+  let xs := map look (n_deps nd) in
+  let ds := map fst xs in
+  let o := n_op nd in
+  let dv := is_deliv p nd in
+  match tget_of o xs with
+  | Some cj =>   (* TupleGet j of a node with recorded components: the info of component j *)
+      (mkNI (ni_supp cj) (ni_lin cj) (dv || ni_vd cj) (ni_vd cj) (unk_kind (ni_kind cj)), [])
+  | None =>
+      let pre := pre_of c p i o ds sts in
+      (mkNI (supp_of i o ds) (lin_of i o ds) (dv || pre) pre (kind_of o ds),
+       map (set_deliv dv) (comps_of o xs))
+  end.
+
+Definition infos (c : config) (p : party) (nodes : list node) : list xinfo :=
+  build xi_default (isem c p) nodes [] (cfg_inputs c).
+Definition topi (I : list xinfo) (i : Z) : ninfo := fst (zget I i xi_default).
+Definition compsi (I : list xinfo) (i : Z) : list ninfo := snd (zget I i xi_default).
+(* info at a location (node, component); the whole node if j < 0 *)
+Definition linfo (I : list xinfo) (i j : Z) : ninfo :=
+  if j <? 0 then topi I i else zget (compsi I i) j ni_default.
 Definition info_at (c : config) (p : party) (nodes : list node) (i : Z) : ninfo :=
-  zget (infos c p nodes) i ni_default.
+  topi (infos c p nodes) i.
+Definition comps_at (c : config) (p : party) (nodes : list node) (i : Z) : list ninfo :=
+  compsi (infos c p nodes) i.
 (* node i is part of the observer's view *)
 Definition mc_vd (c : config) (p : party) (nodes : list node) (i : Z) : bool :=
   ni_vd (info_at c p nodes i).
+(* component j of the (tuple-valued) node i is part of the observer's view *)
+Definition mc_cvd (c : config) (p : party) (nodes : list node) (i j : Z) : bool :=
+  (0 <=? j) && ni_vd (linfo (infos c p nodes) i j).
 
 (* ------------------------------------------------------------------ reveal patterns *)
 (* the output node and, transitively, the dependency of every NOP on the chain *)
@@ -162,29 +227,58 @@ Fixpoint outchain (nodes : list node) (fuel : nat) (i : Z) : list Z :=
            end
   end.
 
-(* [etree I nodes fuel n i = Some b]: the value of node i is a sum whose summands are node n
-   (exactly once if b, not at all otherwise) and view-determined nodes with id < n *)
-Fixpoint etree (I : list ninfo) (nodes : list node) (fuel : nat) (n i : Z) : option bool :=
+(* [etree I nodes fuel n jn i = Some b]: the value of node i is a sum whose summands are the
+   location (n, jn) (node n itself if jn < 0, else TupleGet jn of node n; exactly once if b, not at
+   all otherwise), view-determined nodes with id < n and TupleGet's of view-determined components
+   of nodes with id < n *)
+Fixpoint etree (I : list xinfo) (nodes : list node) (fuel : nat) (n jn i : Z) : option bool :=
   match fuel with
   | O => None
   | S f =>
-      if i =? n then Some true
-      else if (i <? n) && ni_vd (zget I i ni_default) then Some false
+      if (jn <? 0) && (i =? n) then Some true
+      else if (i <? n) && ni_vd (topi I i) then Some false
       else match znth nodes i with
            | Ok nd =>
                match n_op nd, n_deps nd with
                | OAdd, [a; b] =>
                    if (0 <=? a) && (a <? i) && (0 <=? b) && (b <? i) then
-                     match etree I nodes f n a, etree I nodes f n b with
+                     match etree I nodes f n jn a, etree I nodes f n jn b with
                      | Some x, Some y => if x && y then None else Some (x || y)
                      | _, _ => None
                      end
+                   else None
+               | OTupleGet j, [d] =>
+                   if (0 <=? d) && (d <? i) && (0 <=? j) then
+                     if (d =? n) && (j =? jn) then Some true
+                     else if (d <? n) && ni_vd (linfo I d j) then Some false
+                     else None
                    else None
                | _, _ => None
                end
            | _ => None
            end
   end.
+
+(* pattern E for the location (n, j): the base of the output chain is an Add-tree over (n, -1), or
+   a CreateTuple whose component j is an Add-tree over (n, j) *)
+Definition epat (I : list xinfo) (nodes : list node) (chain : list Z) (n j : Z) : bool :=
+  let b := last chain 0 in
+  if j <? 0 then
+    match etree I nodes (length nodes) n j b with Some true => true | _ => false end
+  else
+    match znth nodes b with
+    | Ok nd =>
+        match n_op nd with
+        | OCreateTuple =>
+            match znth (n_deps nd) j with
+            | Ok cn => (0 <=? cn) && (cn <? b) &&
+                       match etree I nodes (length nodes) n j cn with Some true => true | _ => false end
+            | _ => false
+            end
+        | _ => false
+        end
+    | _ => false
+    end.
 
 (* ------------------------------------------------------------------ deliveries and masks *)
 Fixpoint deliveries_go (p : party) (nodes : list node) (i : Z) : list Z :=
@@ -194,46 +288,56 @@ Fixpoint deliveries_go (p : party) (nodes : list node) (i : Z) : list Z :=
   end.
 Definition deliveries (p : party) (nodes : list node) : list Z := deliveries_go p nodes 0.
 
-Definition mask := (Z * bool * Z)%type.        (* (cell, negated, delivered node) *)
-Definition mask_cells (M : list mask) : list Z := map (fun m => fst (fst m)) M.
+Definition loc := (Z * Z)%type.                (* (node, component); component -1 = whole value *)
+(* what a delivery of node n delivers: its recorded components and, unless it is a static tuple
+   (then the components are everything), the whole value *)
+Definition deliv_locs (I : list xinfo) (n : Z) : list loc :=
+  (if kind_eqb (ni_kind (topi I n)) KdTup then [] else [(n, -1)])
+  ++ map (fun j => (n, j)) (zrange (Z.of_nat (length (compsi I n)))).
+
+Definition mask := (Z * bool * Z * Z)%type.    (* (cell, negated, delivered node, component) *)
+Definition m_cell (m : mask) : Z := fst (fst (fst m)).
+Definition m_neg (m : mask) : bool := snd (fst (fst m)).
+Definition m_node (m : mask) : Z := snd (fst m).
+Definition m_comp (m : mask) : Z := snd m.
+Definition mask_cells (M : list mask) : list Z := map m_cell M.
 
 (* classes K, Key, E', E: acceptance without a mask *)
-Definition deliv_free (I : list ninfo) (nodes : list node) (outp : bool) (chain : list Z) (n : Z) : bool :=
-  let inf := zget I n ni_default in
+Definition deliv_free (I : list xinfo) (nodes : list node) (outp : bool) (chain : list Z) (l : loc) : bool :=
+  let inf := linfo I (fst l) (snd l) in
   ni_pre inf
   || kind_eqb (ni_kind inf) KdKey
-  || (outp && zmem n chain)
-  || (outp && kind_eqb (ni_kind inf) KdLeaf &&
-      match etree I nodes (length nodes) n (last chain 0) with Some true => true | _ => false end).
+  || (outp && zmem (fst l) chain)
+  || (outp && kind_eqb (ni_kind inf) KdLeaf && epat I nodes chain (fst l) (snd l)).
 
-Definition deliv_okb (I : list ninfo) (nodes : list node) (outp : bool) (chain : list Z) (M : list mask) (n : Z) : bool :=
-  deliv_free I nodes outp chain n || existsb (fun m => snd m =? n) M.
+Definition deliv_okb (I : list xinfo) (nodes : list node) (outp : bool) (chain : list Z) (M : list mask) (l : loc) : bool :=
+  deliv_free I nodes outp chain l || existsb (fun m => (m_node m =? fst l) && (m_comp m =? snd l)) M.
 
 (* the triangular one-time-pad condition on the recorded masks, in order: the mask is a +-1
-   slope cell of its delivery, under a key the observer does not hold, distinct from all later
-   masks, and no later mask occurs in the support of this delivery *)
-Fixpoint masks_okb (I : list ninfo) (M : list mask) : bool :=
+   slope cell of its delivered location, under a key the observer does not hold, distinct from
+   all later masks, and no later mask occurs in the support of this location *)
+Fixpoint masks_okb (I : list xinfo) (M : list mask) : bool :=
   match M with
   | [] => true
-  | (cell, s, n) :: r =>
-      existsb (fun e => (fst e =? cell) && Bool.eqb (snd e) s) (ni_lin (zget I n ni_default))
-      && negb (ni_vd (zget I cell ni_default))
+  | (cell, s, n, j) :: r =>
+      existsb (fun e => (fst e =? cell) && Bool.eqb (snd e) s) (ni_lin (linfo I n j))
+      && negb (ni_vd (topi I cell))
       && negb (zmem cell (mask_cells r))
-      && forallb (fun c => negb (zmem c (ni_supp (zget I n ni_default)))) (mask_cells r)
+      && forallb (fun c => negb (zmem c (ni_supp (linfo I n j)))) (mask_cells r)
       && masks_okb I r
   end.
 
 (* greedy choice of the masks (class M): first slope cell that is not own, not yet used and not
    in the support of an earlier masked delivery *)
-Definition find_step (I : list ninfo) (nodes : list node) (outp : bool) (chain : list Z)
-           (st : list mask * list Z) (n : Z) : list mask * list Z :=
+Definition find_step (I : list xinfo) (nodes : list node) (outp : bool) (chain : list Z)
+           (st : list mask * list Z) (l : loc) : list mask * list Z :=
   let (M, ms) := st in
-  if deliv_free I nodes outp chain n then st
+  if deliv_free I nodes outp chain l then st
   else
-    let inf := zget I n ni_default in
-    match find (fun e => negb (ni_vd (zget I (fst e) ni_default)) && negb (zmem (fst e) (mask_cells M))
+    let inf := linfo I (fst l) (snd l) in
+    match find (fun e => negb (ni_vd (topi I (fst e))) && negb (zmem (fst e) (mask_cells M))
                          && negb (zmem (fst e) ms)) (ni_lin inf) with
-    | Some (cell, s) => (M ++ [(cell, s, n)], zunion ms (ni_supp inf))
+    | Some (cell, s) => (M ++ [(cell, s, fst l, snd l)], zunion ms (ni_supp inf))
     | None => st
     end.
 
@@ -258,11 +362,14 @@ Definition graph_okb (nodes : list node) : bool :=
   forallb (fun nd => frag_op (n_op nd)) nodes && znodup (prf_ivs nodes).
 Definition wf_okb (c : config) (nodes : list node) : bool := inputs_okb c nodes && graph_okb nodes.
 
+Definition all_locs (I : list xinfo) (p : party) (nodes : list node) : list loc :=
+  flat_map (deliv_locs I) (deliveries p nodes).
+
 Definition maskcheck (c : config) (p : party) (nodes : list node) (out : Z) : option (list mask) :=
   let I := infos c p nodes in
   let outp := zmem p (cfg_outputs c) in
   let chain := outchain nodes (length nodes) out in
-  let dl := deliveries p nodes in
+  let dl := all_locs I p nodes in
   let M := fst (fold_left (find_step I nodes outp chain) dl ([], [])) in
   if wf_okb c nodes && masks_okb I M && forallb (deliv_okb I nodes outp chain M) dl
   then Some M else None.
@@ -272,16 +379,18 @@ Definition maskcheck (c : config) (p : party) (nodes : list node) (out : Z) : op
 Definition viewcover (c : config) (p : party) (nodes : list node) : bool :=
   let I := infos c p nodes in
   match know_all c nodes with
-  | Ok ks => forallb (fun ik => negb (pmem p (kmeet (snd ik))) || ni_vd (zget I (fst ik) ni_default))
+  | Ok ks => forallb (fun ik => negb (pmem p (kmeet (snd ik))) || ni_vd (topi I (fst ik)))
                      (combine (zrange (Z.of_nat (length ks))) ks)
   | _ => false
   end.
 
-(* diagnostic: the deliveries that are not accepted *)
-Definition mc_rejected (c : config) (p : party) (nodes : list node) (out : Z) : list Z :=
+(* diagnostic: the delivered locations that are not accepted, and their nodes *)
+Definition mc_rejected_locs (c : config) (p : party) (nodes : list node) (out : Z) : list loc :=
   let I := infos c p nodes in
   let outp := zmem p (cfg_outputs c) in
   let chain := outchain nodes (length nodes) out in
-  let dl := deliveries p nodes in
+  let dl := all_locs I p nodes in
   let M := fst (fold_left (find_step I nodes outp chain) dl ([], [])) in
-  filter (fun n => negb (deliv_okb I nodes outp chain M n)) dl.
+  filter (fun l => negb (deliv_okb I nodes outp chain M l)) dl.
+Definition mc_rejected (c : config) (p : party) (nodes : list node) (out : Z) : list Z :=
+  map fst (mc_rejected_locs c p nodes out).
